@@ -1501,7 +1501,6 @@ class WBEMListener:
                             ListenerRequestHandler)
                     except OSError as exc:
                         # Note: socket.gaierror is derived from OSError
-                        self._stop_indication_delivery()
                         if getattr(exc, 'errno', None) == errno.EADDRINUSE:
                             # Windows does not raise exception if port is used
                             msg = (f"WBEM listener port {self._https_port} is "
@@ -1605,7 +1604,9 @@ class WBEMListener:
             # A listener thread that was already started must not continue
             # to accept indications that would never be delivered.
             self._stop_listener_threads()
-            self._stop_indication_delivery(immediate=True)
+            # Indications that were acknowledged to their senders in the
+            # meantime are still delivered to the callbacks.
+            self._stop_indication_delivery()
             raise
 
     def stop(self):
